@@ -38,6 +38,18 @@ CLAIMED = {
     'C10': ('4 C10', 'display() output against a reference rendering over every arrangement of narrow/wide/placeholder/'
             'combining/absent cells; purity as a relational lemma decided by z3 over two runs of every operation from '
             'states that differ only in an arbitrary symbolic set of materialised blanks (what display() does).'),
+    'C14': ('4 C14', 'save_cursor/restore_cursor single steps with a symbolic stack (depth 0..2, symbolic saved positions, '
+            'renditions, charset state, DECOM/DECAWM) on a symbolic geometry; z3 decides exact-copy push, LIFO pop, '
+            'clamping into screen and region, one-way re-enabling of DECOM/DECAWM, and that every other operation leaves '
+            'the stack untouched (induction gives nested pairs).'),
+    'C15': ('4 C15', 'reset() from an arbitrary symbolic state is compared field for field with Screen::new executed in the '
+            'same engine (concrete geometries and a symbolic one); a relational non-interference query per operation '
+            'shows the saved-cursor stack is read only by restore_cursor.'),
+    'C16': ('4 C16', 'resize to symbolic target sizes from symbolic states against the crop/extend rule on the observable '
+            'grid, plus two-step sequences (an edit or a resize, then a resize) whose second step is judged relative to '
+            'what was visible, so hidden cells/rows that reappear on growth are solver witnesses.'),
+    'C18': ('4 C18', 'HT/HTS/TBC and the default stops decided on a symbolic width 1..=140 with up to three symbolic stops '
+            '(stale stops beyond the width included); the sort and scan of tab() are executed symbolically.'),
 }
 
 ALL = ['C%02d' % i for i in range(1, 21)]
